@@ -362,9 +362,9 @@ func init() {
 		Simulated:   []string{"host function and host object methods and their failures", "child-VM sync.Pool policy"},
 		Runs: func(tier string) int {
 			if tier == "thorough" {
-				return 300000
+				return 60000000
 			}
-			return 4000
+			return 60000
 		},
 		WallCap: func(tier string) float64 {
 			if tier == "thorough" {
